@@ -1631,3 +1631,119 @@ base.register(base.Family("include_own_modes", ["C19", "C07"], _own_modes_cases,
                           bound="programs on 2-3 modes out of 0..9, 15-17, 24, 31-33, 64, applied 1-3 times to permutations of exactly these modes",
                           rule="oracle of include_inline (inlining with the modes, in increasing order, renamed to the modes listed at the call): the loaded content must not "
                                "depend on the order in which the SET of modes happens to be iterated"))
+
+
+#  * serialize_repr (C09, C01): the text dumps() writes depends on the VALUES of a program only -- not on how an array is laid out in memory
+#                    (C order, Fortran order, a transposed view of the transposed data) and not on NumPy's print options of the process
+#                    (legacy mode, low precision, suppress): metamorphic checks on API-built programs with arrays and NumPy scalars.
+
+def _repr_cases(rng, n, tier):
+    from . import gen_prog as GP
+    foci = ["arrays-multi", "arrays-multi", "mixed", "lists-kw", "sym-positional"]
+    for i in range(n):
+        cls, rec = GP.gen_api_recipe(rng, foci[i % len(foci)])
+        yield {"class": "repr-independence/" + ("layout" if i % 2 == 0 else "print-options") + "/" + cls.split("/")[0],
+               "input": {"recipe": rec, "how": "layout" if i % 2 == 0 else "print-options"}}
+
+
+def _relayout(v):
+    import numpy as np
+    if isinstance(v, np.ndarray) and v.ndim == 2:
+        w = np.asfortranarray(v) if v.flags["C_CONTIGUOUS"] else np.ascontiguousarray(v)
+        if min(v.shape) >= 2:
+            w = np.ascontiguousarray(v.T).T          # a transposed view: equal values, strides swapped
+        return w
+    if isinstance(v, list):
+        return [_relayout(x) for x in v]
+    return v
+
+
+def _repr_check(case):
+    import numpy as np
+    import blackbird
+    from . import gen_prog as GP
+    rec, how = case["input"]["recipe"], case["input"]["how"]
+    p = GP.build_program(rec)
+    try:
+        ref = blackbird.dumps(p)
+    except Exception as e:                                   # noqa: what dumps refuses is the business of api_serialize
+        return None
+    q = GP.build_program(rec)
+    if how == "layout":
+        for op in q.operations:
+            if "args" in op:
+                op["args"][:] = [_relayout(a) for a in op["args"]]
+                for k in list(op.get("kwargs", {})):
+                    op["kwargs"][k] = _relayout(op["kwargs"][k])
+        for k in list(q.variables):
+            q.variables[k] = _relayout(q.variables[k])
+        try:
+            got = blackbird.dumps(q)
+        except Exception as e:
+            return {"expected": "dumps succeeds for equal values in another memory layout", "actual": "%s: %s" % (type(e).__name__, e)}
+        if got != ref:
+            return {"expected": "the same text for arrays with equal values in Fortran order / as transposed views:\n" + ref[:500], "actual": got[:500]}
+        return None
+    saved = np.get_printoptions()
+    try:
+        np.set_printoptions(precision=3, suppress=True, floatmode="fixed", legacy="1.13")
+        got = blackbird.dumps(q)
+    except Exception as e:
+        return {"expected": "dumps succeeds whatever NumPy's print options are", "actual": "%s: %s" % (type(e).__name__, e)}
+    finally:
+        np.set_printoptions(**{k: v for k, v in saved.items() if k != "legacy"})
+        np.set_printoptions(legacy=saved.get("legacy") or False)
+    if got != ref:
+        return {"expected": "the same text under np.set_printoptions(precision=3, suppress=True, floatmode='fixed', legacy='1.13'):\n" + ref[:500], "actual": got[:500]}
+    return None
+
+
+base.register(base.Family("serialize_repr", ["C09", "C01"], _repr_cases, _repr_check, weight=0.08, parallel=False,
+                          bound="API-built programs with arrays / NumPy scalars; every 2-D array re-laid out (Fortran order, transposed view) or the process's NumPy print options changed",
+                          rule="metamorphic: dumps() text is a function of the values alone"))
+
+
+#  * loop_header_scope (C02): the values listed in a for-loop header are the values of the written expressions where the header stands: a
+#                    header that mentions a variable declared earlier -- also one with the NAME of the loop variable -- is evaluated before the
+#                    first iteration binds the loop variable. Only the operations are compared (what happens to a shadowed outer variable
+#                    after the loop is outside the statements: C06 speaks about loop variables "not declared elsewhere").
+
+def _lhs_cases(rng, n, tier):
+    for i in range(n):
+        outer = rng.choice(["m", "k", "idx", "n0"])
+        loopv = outer if i % 2 == 0 else rng.choice(["j", "t"])
+        a = rng.randint(0, 6)
+        offs = [rng.randint(0, 4) for _ in range(rng.randint(2, 4))]
+        items = [outer if o == 0 else "%s+%d" % (outer, o) for o in offs]
+        style = rng.choice(["[%s]", "(%s)", "%s"])
+        use = rng.choice(["G(%s) | 0", "G | %s", "G(1, x=%s) | 0"])
+        lines = ["name t", "version 1.0", "", "int %s = %d" % (outer, a), "for int %s in %s" % (loopv, style % ", ".join(items)), "    " + use % loopv, "Vac | 9"]
+        ops = []
+        for o in offs:
+            v = a + o
+            if use.startswith("G |"):
+                ops.append({"op": "G", "modes": [v], "args": None, "kwargs": None})
+            elif "x=" in use:
+                ops.append({"op": "G", "modes": [0], "args": [1], "kwargs": {"x": v}})
+            else:
+                ops.append({"op": "G", "modes": [0], "args": [v], "kwargs": {}})
+        ops.append({"op": "Vac", "modes": [9], "args": None, "kwargs": None})
+        yield {"class": "header-mentions-%s" % ("the-shadowed-outer-variable" if loopv == outer else "an-outer-variable"),
+               "input": {"script": "\n".join(lines) + "\n", "ops": ops}}
+
+
+def _lhs_check(case):
+    import blackbird
+    try:
+        p = blackbird.loads(case["input"]["script"])
+    except Exception as e:
+        return {"expected": "the script loads: %r" % case["input"]["ops"], "actual": "%s: %s" % (type(e).__name__, e)}
+    got = [{"op": o["op"], "modes": [int(m) for m in o["modes"]], "args": ([int(a) for a in o["args"]] if "args" in o else None),
+            "kwargs": ({k: int(v) for k, v in o["kwargs"].items()} if "kwargs" in o else None)} for o in p.operations]
+    if got != case["input"]["ops"]:
+        return {"expected": repr(case["input"]["ops"]), "actual": repr(got)}
+    return None
+
+
+base.register(base.Family("loop_header_scope", ["C02"], _lhs_cases, _lhs_check, weight=0.06, bound="one int variable, one loop over 2-4 header expressions var+k, 3 bracket styles, 3 uses",
+                          rule="header expressions are evaluated with the variables declared before the loop; operations compared exactly"))
